@@ -453,6 +453,53 @@ def guarded(fn):
         return {"error": type(e).__name__, "msg": str(e)[:300]}
 
 
+# --------------------------------------------------------------------------- source fingerprints
+def source_fingerprints(repo):
+    """sha of the docstring-free AST of every persim/**/*.py (comments, blank lines, docstrings do not count)."""
+    import ast
+    out = {}
+    root = Path(repo) / "persim"
+    for f in sorted(root.rglob("*.py")):
+        try:
+            import warnings
+            with warnings.catch_warnings():
+                warnings.simplefilter("ignore")
+                tree = ast.parse(f.read_text())
+        except Exception:
+            out[str(f.relative_to(repo))] = "unparsable"
+            continue
+        for node in ast.walk(tree):
+            body = getattr(node, "body", None)
+            if isinstance(body, list) and body and isinstance(body[0], ast.Expr) and isinstance(getattr(body[0], "value", None), ast.Constant) \
+                    and isinstance(body[0].value.value, str):
+                node.body = body[1:] or [ast.Pass()]
+        out[str(f.relative_to(repo))] = hashlib.sha256(ast.unparse(tree).encode()).hexdigest()[:16]
+    return out
+
+
+def changed_sources(pid):
+    """Files anchored by property `pid` (properties.jsonl) whose code differs from the tree the models were last
+    validated against (harness/source_baseline.json).  None when there is no baseline."""
+    b = VERIF / "harness" / "source_baseline.json"
+    if not b.exists():
+        return None
+    base = json.loads(b.read_text())
+    anchors = None
+    for line in (VERIF / "properties.jsonl").read_text().splitlines():
+        if line.strip():
+            rec = json.loads(line)
+            if rec.get("id") == pid:
+                anchors = rec.get("anchors", {}).get("files", [])
+    now = source_fingerprints(REPO)
+    files = set(base) | set(now)
+    if anchors:
+        # everything a property's anchors import from persim may matter too: take the anchors plus the kernel / weight /
+        # auxiliary modules next to them (cheap over-approximation: same directory)
+        dirs = {str(Path(a).parent) for a in anchors}
+        files = {f for f in files if f in anchors or str(Path(f).parent) in dirs}
+    return sorted(f for f in files if base.get(f) != now.get(f))
+
+
 # --------------------------------------------------------------------------- known findings
 
 def load_findings(pid):
@@ -668,11 +715,20 @@ def run_check(mod, tier="quick", seed=0, replay=None):
             real_dis.append((c, o, "disagree:agrees-with-refuted-legacy-model:" + fid, hs))
     if real_dis:
         broken.append("correspondence: %d disagreement(s), first: %s" % (len(real_dis), real_dis[0][2]))
-    if broken and not [v for v in violations if v[0] == "input"]:
+    # The modelled source differs from the tree the models were validated against (harness/source_baseline.json): proofs
+    # and correspondence may still hold, but the generators were tuned on the old code, so the failing-input search runs
+    # anyway, with a larger stream.  It can only add a VIOLATION that comes with a concrete failing input.
+    changed = None if replay else changed_sources(pid)
+    escalate = bool(changed) and not [v for v in violations if v[0] == "input"]
+    if escalate:
+        log("[%s] source changed since the models were validated (%s): running the failing-input search" % (pid, ", ".join(changed)))
+    if (broken or escalate) and not [v for v in violations if v[0] == "input"]:
         # search for a concrete failing input: the spec predicate on a fresh stream
         found = None
         sg = getattr(mod, "search_generate", None)
         n_search = 400 if tier == "quick" else 4000
+        if escalate:
+            n_search = int(os.environ.get("VERIF_ESCALATE_N", "1500" if tier == "quick" else "6000"))
         extra = sg(rng, n_search) if sg else mod.generate(rng, "thorough" if tier == "thorough" else "quick")
         pool = [d[0] for d in real_dis] + extra
         for i, c in enumerate(pool):
@@ -710,7 +766,7 @@ def run_check(mod, tier="quick", seed=0, replay=None):
             violations.append(("input", detail, {
                 "property": pid, "kind": "failing-input", "case": small, "original_case": c,
                 "impl_output": so, "spec_detail": sdetail, "hashseed": hs, "also_broken": broken}))
-        else:
+        elif broken:
             first = None
             if real_dis:
                 c, o, v, hs = real_dis[0]
@@ -754,6 +810,7 @@ def run_check(mod, tier="quick", seed=0, replay=None):
         "wall_s": round(time.time() - t0, 2),
         "violations": len(violations),
     }
+    ev["coverage"]["source_changed_since_baseline"] = changed
     if extra_info:
         ev["coverage"]["regenerated"] = {k: v for k, v in extra_info.items() if k != "problems"}
     if notes:
